@@ -48,7 +48,8 @@ partial def optionsApp (j : Json) (next : Nat) (pre : Route) (tbl : List (Route 
       if !(routes.any fun x => x.1 == r) && !(taken.contains (pre ++ r)) then
         -- handler id = index of the flat pattern in the table of method unions
         routes := routes ++ [(r, (tbl.findIdx? fun x => x.1 == pre ++ r).getD 0)]
-  return (App.mk id false routes mounts, n)
+  -- every application of the harness is built with `Ohkami::with(..)`: its fang entry exists even for `()` and opens a scope at its mount node
+  return (App.mk id true routes mounts, n)
 
 def methodUnion (fm : List (Route × List String)) : List (Route × List String) :=
   fm.foldl (fun acc (r, ms) =>
